@@ -116,7 +116,8 @@ type expr struct {
 
 type top struct {
 	e    *expr
-	form int // 0: var _ = E   1: func body   2: inner call through a local variable
+	form int  // 0: var _ = E   1: func body   2: inner call through a local variable
+	test bool // the call stands in the in-package test file a_test.go (package p), see place
 }
 
 type version struct {
@@ -144,7 +145,7 @@ func (v *version) clone() *version {
 		return &c
 	}
 	for _, t := range v.tops {
-		w.tops = append(w.tops, top{cp(t.e), t.form})
+		w.tops = append(w.tops, top{cp(t.e), t.form, t.test})
 	}
 	return w
 }
@@ -192,11 +193,19 @@ func usedVars(e *expr, set map[int]bool) {
 // ver is what the step procedure needs: sources, abstract package, name and type tables.
 type ver struct {
 	src    string
+	test   string         // source of the in-package test file a_test.go ("" = the package has none)
 	pkg    string         // PKG s-expression
 	names  map[string]int // function name -> kind*100 + id ... see nameInfo
 	kinds  map[string]int
 	types  map[string]int // type identifier -> base id (declared in this version)
 	sparse int            // corpus: crash points only every sparse-th byte in the quick tier (slow packages)
+}
+
+// inPackage: the same version with another package name.
+func (v ver) inPackage(name string) ver {
+	v.src = strings.Replace(v.src, "package p\n", "package "+name+"\n", 1)
+	v.test = strings.Replace(v.test, "package p\n", "package "+name+"\n", 1)
+	return v
 }
 
 func (v *version) render() ver {
@@ -246,6 +255,19 @@ func (v *version) render() ver {
 	var pk []string
 	names := map[string]int{}
 	kinds := map[string]int{}
+	// The loader appends the in-package test files to the files of the package (GoFiles, then TestGoFiles)
+	// and goderive handles the calls file by file: the calls of a_test.go follow those of a.go.
+	main := &b
+	var tb strings.Builder
+	ntest := 0
+	for _, t := range v.tops {
+		if t.test {
+			ntest++
+		}
+	}
+	if ntest > 0 {
+		tb.WriteString("package p\n\n")
+	}
 	var reg func(e *expr)
 	reg = func(e *expr) {
 		if e.isVar {
@@ -255,22 +277,31 @@ func (v *version) render() ver {
 		kinds[nameStr(e.k, e.suf)] = e.k
 		reg(e.a)
 	}
-	for i, t := range v.tops {
-		reg(t.e)
-		switch {
-		case t.form == 2 && !t.e.isVar && !t.e.a.isVar:
-			// x := INNER; OUTER(x): the finder meets INNER first, then OUTER whose argument has INNER's type
-			fmt.Fprintf(&b, "func f%d() int {\n\tx := %s\n\treturn len(%s(x))\n}\n\n", i, v.exprText(t.e.a), nameStr(t.e.k, t.e.suf))
-			pk = append(pk, v.exprSexp(t.e.a), v.exprSexp(t.e))
-		case t.form == 1:
-			fmt.Fprintf(&b, "func f%d() int { return len(%s) }\n\n", i, v.exprText(t.e))
-			pk = append(pk, v.exprSexp(t.e))
-		default:
-			fmt.Fprintf(&b, "var _ = %s\n\n", v.exprText(t.e))
-			pk = append(pk, v.exprSexp(t.e))
+	for _, inTest := range []bool{false, true} {
+		b := main
+		if inTest {
+			b = &tb
+		}
+		for i, t := range v.tops {
+			if t.test != inTest {
+				continue
+			}
+			reg(t.e)
+			switch {
+			case t.form == 2 && !t.e.isVar && !t.e.a.isVar:
+				// x := INNER; OUTER(x): the finder meets INNER first, then OUTER whose argument has INNER's type
+				fmt.Fprintf(b, "func f%d() int {\n\tx := %s\n\treturn len(%s(x))\n}\n\n", i, v.exprText(t.e.a), nameStr(t.e.k, t.e.suf))
+				pk = append(pk, v.exprSexp(t.e.a), v.exprSexp(t.e))
+			case t.form == 1:
+				fmt.Fprintf(b, "func f%d() int { return len(%s) }\n\n", i, v.exprText(t.e))
+				pk = append(pk, v.exprSexp(t.e))
+			default:
+				fmt.Fprintf(b, "var _ = %s\n\n", v.exprText(t.e))
+				pk = append(pk, v.exprSexp(t.e))
+			}
 		}
 	}
-	return ver{src: b.String(), pkg: "(" + strings.Join(pk, " ") + ")", names: names, kinds: kinds, types: types}
+	return ver{src: main.String(), test: tb.String(), pkg: "(" + strings.Join(pk, " ") + ")", names: names, kinds: kinds, types: types}
 }
 
 // ---------- generation of versions and edits ----------
@@ -396,11 +427,27 @@ func (v *version) newTop(r *hx.Rand, maxDepth int) {
 	if e.isVar {
 		return
 	}
-	t := top{e, r.Intn(3)}
+	t := top{e: e, form: r.Intn(3)}
 	pos := r.Intn(len(v.tops) + 1)
 	v.tops = append(v.tops, top{})
 	copy(v.tops[pos+1:], v.tops[pos:])
 	v.tops[pos] = t
+}
+
+// place decides which calls stand in the in-package test file a_test.go.  It consumes no random numbers
+// (the generated histories are what they were before test files existed): in every second history, the
+// calls whose variable number plus position has the parity of the step pair, so that calls also move
+// between a.go and a_test.go from one version to the next.
+func (v *version) place(hi, step int) {
+	for i := range v.tops {
+		ids := map[int]bool{}
+		usedVars(v.tops[i].e, ids)
+		id := 0
+		for k := range ids {
+			id = k
+		}
+		v.tops[i].test = hi%2 == 1 && (id+i+(step+1)/2)%2 == 1
+	}
 }
 
 func randVersion(r *hx.Rand) *version {
@@ -712,23 +759,51 @@ func pkgDir(dir string, mode int) string {
 	return filepath.Join(dir, "inner")
 }
 
-func goderiveAt(cfg hx.Config, dir string, mode int) hx.RunResult {
+func goderiveAt(cfg hx.Config, dir string, mode int, flags ...string) hx.RunResult {
+	args := append([]string{}, flags...)
 	switch mode {
 	case 1:
-		return hx.Goderive(cfg.Goderive, dir, "./inner")
+		return hx.Goderive(cfg.Goderive, dir, append(args, "./inner")...)
 	case 2:
-		return hx.Goderive(cfg.Goderive, dir, "p/inner")
+		return hx.Goderive(cfg.Goderive, dir, append(args, "p/inner")...)
 	case 3:
-		return hx.Goderive(cfg.Goderive, dir, "./...")
+		return hx.Goderive(cfg.Goderive, dir, append(args, "./...")...)
 	}
-	return hx.Goderive(cfg.Goderive, dir, ".")
+	return hx.Goderive(cfg.Goderive, dir, append(args, ".")...)
 }
 
 func runIn(cfg hx.Config, dir string, v ver, old []byte, oldExists bool) outcome {
 	return runInMode(cfg, dir, 0, v, old, oldExists)
 }
 
+// writeSrc (re)writes the user's files of the package: a.go and, when the version has one, a_test.go.
+func writeSrc(pdir string, v ver) {
+	os.WriteFile(filepath.Join(pdir, "a.go"), []byte(v.src), 0o644)
+	if v.test != "" {
+		os.WriteFile(filepath.Join(pdir, "a_test.go"), []byte(v.test), 0o644)
+	} else {
+		os.Remove(filepath.Join(pdir, "a_test.go"))
+	}
+}
+
+// srcUnchanged: the user's files still hold the text of the version (-autoname/-dedup rewrite them).
+func srcUnchanged(pdir string, v ver) bool {
+	a, err := os.ReadFile(filepath.Join(pdir, "a.go"))
+	if err != nil || string(a) != v.src {
+		return false
+	}
+	t, err := os.ReadFile(filepath.Join(pdir, "a_test.go"))
+	if v.test == "" {
+		return err != nil
+	}
+	return err == nil && string(t) == v.test
+}
+
 func runInMode(cfg hx.Config, dir string, mode int, v ver, old []byte, oldExists bool) outcome {
+	return runInModeFlags(cfg, dir, mode, nil, v, old, oldExists)
+}
+
+func runInModeFlags(cfg hx.Config, dir string, mode int, flags []string, v ver, old []byte, oldExists bool) outcome {
 	os.MkdirAll(pkgDir(dir, mode), 0o755)
 	hx.Module(dir)
 	// scratch directories are reused with other modes: exactly one package may exist
@@ -736,18 +811,19 @@ func runInMode(cfg hx.Config, dir string, mode int, v ver, old []byte, oldExists
 		os.RemoveAll(filepath.Join(dir, "inner"))
 	} else {
 		os.Remove(filepath.Join(dir, "a.go"))
+		os.Remove(filepath.Join(dir, "a_test.go"))
 		os.Remove(filepath.Join(dir, "derived.gen.go"))
 	}
-	os.WriteFile(filepath.Join(pkgDir(dir, mode), "a.go"), []byte(v.src), 0o644)
 	gen := filepath.Join(pkgDir(dir, mode), "derived.gen.go")
 	var g hx.RunResult
 	for attempt := 0; attempt < 3; attempt++ {
+		writeSrc(pkgDir(dir, mode), v)
 		if oldExists {
 			os.WriteFile(gen, old, 0o644)
 		} else {
 			os.Remove(gen)
 		}
-		g = goderiveAt(cfg, dir, mode)
+		g = goderiveAt(cfg, dir, mode, flags...)
 		if !g.TimedOut {
 			break // a 30 s timeout of a 10 ms run is the machine's load, not goderive: try again
 		}
@@ -782,6 +858,9 @@ func (c *collector) add(line string) {
 
 func files(v ver, old []byte, oldExists bool) map[string]string {
 	m := map[string]string{"a.go": v.src, "go.mod": "module p\n\ngo 1.24\n"}
+	if v.test != "" {
+		m["a_test.go"] = v.test
+	}
 	if oldExists {
 		m["derived.gen.go (before the run)"] = string(old)
 	}
@@ -790,6 +869,25 @@ func files(v ver, old []byte, oldExists bool) map[string]string {
 
 // observe one run: writes the observation and, for a difference, a direct record with the sources.
 func (c *collector) observe(cfg hx.Config, what string, v ver, old []byte, oldExists bool, a, s outcome) {
+	c.observeCtx(cfg, what, v, old, oldExists, a, s, nil, true)
+}
+
+// ctxOf names the input class of a run beyond the abstract package: calls in an in-package test file, flags.
+func ctxOf(v ver, flags []string) string {
+	var parts []string
+	for _, f := range flags {
+		parts = append(parts, strings.TrimPrefix(f, "-"))
+	}
+	if v.test != "" {
+		parts = append(parts, "testfile")
+	}
+	return strings.Join(parts, "-")
+}
+
+// observeCtx: flags = the flags goderive ran with (the scratch copy ran with the same flags); model = the
+// run is inside what the model describes (false: -autoname/-dedup renamed calls in the user's files; then
+// only the property itself, byte equality with the scratch result, is judged).
+func (c *collector) observeCtx(cfg hx.Config, what string, v ver, old []byte, oldExists bool, a, s outcome, flags []string, model bool) {
 	oldS, _ := classifyOld(old, oldExists, v)
 	same := 0
 	if sameAs(a, s) {
@@ -799,7 +897,14 @@ func (c *collector) observe(cfg hx.Config, what string, v ver, old []byte, oldEx
 	if os.Getenv("VERIF_C07_PINNED") == "1" {
 		kind = "regen-pinned" // diagnostic: compare with the model of the code before the fixes
 	}
-	c.add(fmt.Sprintf("(%s %s %s %s %d)", kind, v.pkg, oldS, parseReal(a.exit, a.bytes, a.exists, v), same))
+	if ctx := ctxOf(v, flags); model && ctx == "" {
+		c.add(fmt.Sprintf("(%s %s %s %s %d)", kind, v.pkg, oldS, parseReal(a.exit, a.bytes, a.exists, v), same))
+	} else if model {
+		c.add(fmt.Sprintf("(%s %s %s %s %d %s)", kind, v.pkg, oldS, parseReal(a.exit, a.bytes, a.exists, v), same, ctx))
+	}
+	if len(flags) > 0 {
+		what += " [goderive " + strings.Join(flags, " ") + "]"
+	}
 	c.mu.Lock()
 	c.nrun++
 	if same == 0 && c.bad < 3 {
@@ -810,7 +915,7 @@ func (c *collector) observe(cfg hx.Config, what string, v ver, old []byte, oldEx
 		fs["derived.gen.go (from scratch)"] = string(s.bytes)
 		c.meta.AddDirect(hx.Direct{Class: "c07-differs-from-scratch",
 			What:  fmt.Sprintf("%s: one goderive run over the old derived.gen.go does not leave the from-scratch result (exit %d vs %d from scratch)", what, a.exit, s.exit),
-			Files: fs, Cmd: "goderive .  (in a directory holding a.go, go.mod and the old derived.gen.go)",
+			Files: fs, Cmd: "goderive " + strings.Join(append(append([]string{}, flags...), "."), " ") + "  (in a directory holding the sources, go.mod and the old derived.gen.go)",
 			Output: hx.Truncate(a.log, 1500)})
 		return
 	}
@@ -823,6 +928,24 @@ type crashJob struct {
 	k     int
 	which string
 	s     outcome
+	flags []string // flags of the run (and of the scratch run s)
+	model bool     // false: the scratch run under these flags renamed calls in the sources
+}
+
+var flagSets = [][]string{{"-autoname"}, {"-dedup"}, {"-autoname", "-dedup"}}
+
+// flagOffsets: a few crash points per step for the runs under -autoname/-dedup: inside the header (where
+// go/build rejects the directory), inside the functions, one byte short.
+func flagOffsets(n int) []int {
+	var ks []int
+	seen := map[int]bool{}
+	for _, k := range []int{0, 9, 30, 45, n / 3, n / 2, 2 * n / 3, n - 1} {
+		if k >= 0 && k <= n && !seen[k] {
+			seen[k] = true
+			ks = append(ks, k)
+		}
+	}
+	return ks
 }
 
 func offsets(n int, tier string, sparse int) []int {
@@ -886,6 +1009,7 @@ func Run(cfg hx.Config) (*hx.Meta, error) {
 	for i := 0; i < nh; i++ {
 		hr := r.Fork(uint64(i))
 		v := randVersion(hr)
+		v.place(i, 0)
 		h := hist{name: fmt.Sprintf("h%d", i), vers: []ver{v.render()}, desc: []string{"initial"}}
 		for s := 0; s < steps; s++ {
 			var d string
@@ -895,6 +1019,7 @@ func Run(cfg hx.Config) (*hx.Meta, error) {
 				v.tops = nil
 				d = "remove-all-calls"
 			}
+			v.place(i, s+1)
 			h.vers = append(h.vers, v.render())
 			h.desc = append(h.desc, d)
 		}
@@ -904,11 +1029,20 @@ func Run(cfg hx.Config) (*hx.Meta, error) {
 
 	var jobsMu sync.Mutex
 	var jobs []crashJob
-	hx.Parallel(len(hists), 16, func(hi int) {
+	// every history is walked twice, independently: without flags (first half of the index space) and
+	// under -autoname/-dedup (second half)
+	hx.Parallel(2*len(hists), 16, func(idx int) {
+		hi := idx % len(hists)
+		underFlags := idx >= len(hists)
 		h := hists[hi]
 		dir := filepath.Join(cfg.Work, fmt.Sprintf("hist%d", hi))
-		var prev outcome // what derived.gen.go holds before the step
+		var prev outcome  // what derived.gen.go holds before the step
+		var prevF outcome // the same for the chain of runs under -autoname/-dedup
+		dirF := filepath.Join(cfg.Work, fmt.Sprintf("hist%d-flags", hi))
 		for si, v := range h.vers {
+			if underFlags {
+				break
+			}
 			sdir := filepath.Join(cfg.Work, fmt.Sprintf("hist%d-scratch%d", hi, si))
 			s := runIn(cfg, sdir, v, nil, false)
 			mode := hi % 4
@@ -952,12 +1086,12 @@ func Run(cfg hx.Config) (*hx.Meta, error) {
 				jobsMu.Lock()
 				if prev.exists {
 					for _, k := range offsets(len(prev.bytes), cfg.Tier, v.sparse) {
-						jobs = append(jobs, crashJob{v, prev.bytes, k, "previous", s})
+						jobs = append(jobs, crashJob{v, prev.bytes, k, "previous", s, nil, true})
 					}
 				}
 				if s.exit == 0 && s.exists {
 					for _, k := range offsets(len(s.bytes), cfg.Tier, v.sparse) {
-						jobs = append(jobs, crashJob{v, s.bytes, k, "new", s})
+						jobs = append(jobs, crashJob{v, s.bytes, k, "new", s, nil, true})
 					}
 				}
 				jobsMu.Unlock()
@@ -965,6 +1099,63 @@ func Run(cfg hx.Config) (*hx.Meta, error) {
 			// the next step starts from whatever is on disk now
 			b, err := os.ReadFile(filepath.Join(pkgDir(dir, mode), "derived.gen.go"))
 			prev = outcome{exists: err == nil, bytes: b}
+		}
+		for si, v := range h.vers {
+			if !underFlags {
+				break
+			}
+			// The same step under -autoname / -dedup ("from scratch for the current sources AND FLAGS"): a chain
+			// of its own, whose scratch copy runs with the same flags.  Where no call had to be renamed the
+			// flags change nothing and the model applies; where calls were renamed (the user's files are
+			// rewritten) only byte equality with the scratch result, go vet and the second run are judged.
+			if v.sparse > 0 && cfg.Tier != "thorough" {
+				continue // slow corpus package (its derived.gen.go imports the standard library)
+			}
+			fl := flagSets[(hi+si)%len(flagSets)]
+			modeF := (hi + 1) % 4
+			sdirF := filepath.Join(cfg.Work, fmt.Sprintf("hist%d-flags-scratch%d", hi, si))
+			sF := runInModeFlags(cfg, sdirF, 0, fl, v, nil, false)
+			model := srcUnchanged(sdirF, v)
+			aF := runInModeFlags(cfg, dirF, modeF, fl, v, prevF.bytes, prevF.exists)
+			modelA := model && srcUnchanged(pkgDir(dirF, modeF), v)
+			col.meta.CountSafe("flags/" + strings.Join(fl, " ") + map[bool]string{true: "/no call renamed", false: "/calls renamed in the sources"}[modelA])
+			col.observeCtx(cfg, fmt.Sprintf("%s step %d (%s)", h.name, si, h.desc[si]), v, prevF.bytes, prevF.exists, aF, sF, fl, modelA)
+			if aF.exit == 0 && sF.exit == 0 {
+				if vet := hx.GoVet(pkgDir(dirF, modeF), ""); vet.Exit != 0 {
+					fs := files(v, prevF.bytes, prevF.exists)
+					fs["derived.gen.go (after the run)"] = string(aF.bytes)
+					col.meta.AddDirect(hx.Direct{Class: "c07-vet-fails",
+						What:  fmt.Sprintf("%s step %d (%s): goderive %s exit 0 but the package does not type-check", h.name, si, h.desc[si], strings.Join(fl, " ")),
+						Files: fs, Cmd: "goderive " + strings.Join(fl, " ") + " . && go vet .", Output: hx.Truncate(vet.Out, 1500)})
+				}
+				g2 := goderiveAt(cfg, dirF, modeF, fl...)
+				b2, err2 := os.ReadFile(filepath.Join(pkgDir(dirF, modeF), "derived.gen.go"))
+				if g2.Exit != 0 || (err2 == nil) != aF.exists || !bytes.Equal(b2, aF.bytes) {
+					fs := files(v, prevF.bytes, prevF.exists)
+					fs["derived.gen.go (after run 1)"] = string(aF.bytes)
+					fs["derived.gen.go (after run 2)"] = string(b2)
+					col.meta.AddDirect(hx.Direct{Class: "c07-second-run-changes",
+						What:  fmt.Sprintf("%s step %d (%s): a second goderive %s run changes derived.gen.go (exit %d)", h.name, si, h.desc[si], strings.Join(fl, " "), g2.Exit),
+						Files: fs, Cmd: "goderive " + strings.Join(fl, " ") + " . (twice)", Output: hx.Truncate(g2.Out, 1500)})
+				}
+				col.mu.Lock()
+				col.nrun += 2
+				col.mu.Unlock()
+			}
+			jobsMu.Lock()
+			if prevF.exists {
+				for _, k := range flagOffsets(len(prevF.bytes)) {
+					jobs = append(jobs, crashJob{v, prevF.bytes, k, "previous", sF, fl, model})
+				}
+			}
+			if sF.exit == 0 && sF.exists {
+				for _, k := range flagOffsets(len(sF.bytes)) {
+					jobs = append(jobs, crashJob{v, sF.bytes, k, "new", sF, fl, model})
+				}
+			}
+			jobsMu.Unlock()
+			bF, errF := os.ReadFile(filepath.Join(pkgDir(dirF, modeF), "derived.gen.go"))
+			prevF = outcome{exists: errF == nil, bytes: bF}
 		}
 	})
 
@@ -1009,7 +1200,7 @@ func Run(cfg hx.Config) (*hx.Meta, error) {
 			for _, rt := range []string{root, sroot} {
 				d := filepath.Join(rt, fmt.Sprintf("q%d", pi))
 				os.MkdirAll(d, 0o755)
-				os.WriteFile(filepath.Join(d, "a.go"), []byte(strings.Replace(v.src, "package p\n", fmt.Sprintf("package q%d\n", pi), 1)), 0o644)
+				writeSrc(d, v.inPackage(fmt.Sprintf("q%d", pi)))
 			}
 			if ex {
 				os.WriteFile(filepath.Join(root, fmt.Sprintf("q%d", pi), "derived.gen.go"), old, 0o644)
@@ -1043,8 +1234,7 @@ func Run(cfg hx.Config) (*hx.Meta, error) {
 				}
 				continue
 			}
-			v := q.v
-			v.src = strings.Replace(v.src, "package p\n", fmt.Sprintf("package q%d\n", pi), 1)
+			v := q.v.inPackage(fmt.Sprintf("q%d", pi))
 			col.observe(cfg, fmt.Sprintf("multi-package invocation %d, package q%d", mi, pi), v, q.old, q.oldExists, a, s)
 		}
 	})
@@ -1059,10 +1249,16 @@ func Run(cfg hx.Config) (*hx.Meta, error) {
 		dir := <-dirs
 		defer func() { dirs <- dir }()
 		cut := j.src[:j.k]
-		a := runInMode(cfg, dir, (i+j.k)%4, j.v, cut, true)
+		mode := (i + j.k) % 4
+		a := runInModeFlags(cfg, dir, mode, j.flags, j.v, cut, true)
 		_, cls := classifyOld(cut, true, j.v)
-		col.meta.CountSafe("crash-point/" + j.which + "-output/" + cls)
-		col.observe(cfg, fmt.Sprintf("derived.gen.go = first %d bytes of the %s output", j.k, j.which), j.v, cut, true, a, j.s)
+		fk := ""
+		if len(j.flags) > 0 {
+			fk = "under-flags/"
+		}
+		col.meta.CountSafe("crash-point/" + fk + j.which + "-output/" + cls)
+		model := j.model && (len(j.flags) == 0 || srcUnchanged(pkgDir(dir, mode), j.v))
+		col.observeCtx(cfg, fmt.Sprintf("derived.gen.go = first %d bytes of the %s output", j.k, j.which), j.v, cut, true, a, j.s, j.flags, model)
 	})
 
 	runFixed(cfg, col.meta)
